@@ -228,6 +228,10 @@ class ActorModel:
                     v = n.value
                     if sender and isinstance(v, ast.Name) and v.id == sender:
                         out.setdefault(n.targets[0].attr, []).append((name, "sender", n))
+                    elif sender and isinstance(v, ast.Call) and source.dotted(v.func) == "getattr" and len(v.args) == 3 and source.is_const(v.args[1], "reply_to") \
+                            and isinstance(v.args[2], ast.Name) and v.args[2].id == sender:
+                        # the requester stamped into the message by a dispatcher, else the sender: an address either way
+                        out.setdefault(n.targets[0].attr, []).append((name, "sender", n))
                     elif isinstance(v, ast.Call) and last_attr(v.func) == "createActor":
                         out.setdefault(n.targets[0].attr, []).append((name, "createActor", n))
         return out
